@@ -36,7 +36,7 @@ def generate(seed, tier):
     st = Streams(seed)
     def build(rng):
         cfg = {"widths": rng.choice([[2, 3], [2, 3, 4], [3]]), "signed": rng.random() < 0.5,
-               "depth": 1, "max_stmts": 3, "max_blocks": 2, "ps": False, "shifts": False, "divmod": False,
+               "depth": 1, "max_stmts": 3, "max_blocks": 2, "ps": rng.random() < 0.5, "shifts": False, "divmod": False,
                "arith": ["+", "-"], "stmts": ["expr", "expr", "in"], "nonrand": True}
         g = progs.ListGen(rng, cfg)
         return g.list_program(gates=("randsz-aggregate",), extra=("cond_nonrand", "nested_if")), g, cfg
